@@ -44,6 +44,7 @@ def setup(ctx):
     ]
     ctx.require("monitor", "connections_with_proxy_handler", 300)
     ctx.require("monitor", "wired_connections", 8)
+    ctx.require("monitor", "wired_through_serve_command", 4)
     ctx.require("monitor", "cert_twin_connections", 48)
     ctx.require("monitor", "connections", 500)
     ctx.require("monitor", "mw_calls_observed", 500)
@@ -443,10 +444,35 @@ def run_wired(ctx, base):
         ("rate-limit:capacity-1", dict(enable_rate_limiting=True, rate_limit_config=RateLimitConfig(capacity=1, refill_rate=0.001, retry_after=9)), [20, 44, 44]),
         ("none:control", dict(enable_rate_limiting=False), [20]),
     ]
+    # the same policies written in a configuration file and started by the command line (`nauyaca serve --config`),
+    # alone and next to other features of the same server (limiter switched off, limiter on, certificate rules)
+    import tomli_w
+
+    from vf.sim import capture_serve
+
+    ident = certs.identity("capture-server", "ec")
+    files = {
+        "file:default-deny:limiter-off": {"access_control": {"default_allow": False}, "rate_limit": {"enabled": False}},
+        "file:deny-list:limiter-off": {"access_control": {"deny_list": ["198.51.100.0/24"]}, "rate_limit": {"enabled": False}},
+        "file:deny-list:limiter-on": {"access_control": {"deny_list": ["198.51.100.0/24"]}, "rate_limit": {"enabled": True, "capacity": 1000}},
+        "file:allow-list-elsewhere:explicitly-enabled": {"access_control": {"enabled": True, "allow_list": ["10.0.0.0/8"]}, "rate_limit": {"enabled": False}},
+    }
+    for fname, sections in files.items():
+        pth = os.path.join(base, fname.replace(":", "_") + ".toml")
+        with open(pth, "wb") as f:
+            tomli_w.dump({"server": {"host": "127.0.0.1", "port": 1965, "document_root": docroot}, **sections}, f)
+        configs.append((f"access-control:{fname}", {"serve": ["--config", pth, "--cert", ident.certfile, "--key", ident.keyfile, "--log-level", "CRITICAL"]}, [53]))
     audit = AuditMonitor.get()
     for name, kw, expected in configs:
-        with contextlib.redirect_stdout(io.StringIO()):
-            cap = capture_factory(dict(log_level="CRITICAL", **kw), ServerConfig(host="127.0.0.1", port=1965, document_root=docroot))
+        if "serve" in kw:
+            cap = capture_serve(kw["serve"])
+            if "factory" not in cap:
+                ctx.inconclusive_because(f"serve command did not start ({name}): {cap['output'][-100:]!r}")
+                continue
+            ctx.count("monitor", "wired_through_serve_command")
+        else:
+            with contextlib.redirect_stdout(io.StringIO()):
+                cap = capture_factory(dict(log_level="CRITICAL", **kw), ServerConfig(host="127.0.0.1", port=1965, document_root=docroot))
         quiet_logs()
         loop = new_loop()
         try:
